@@ -29,6 +29,7 @@ type oblResult struct {
 	Script  string            `json:"-"`
 	SolverO string            `json:"solver_output,omitempty"`
 	Trivial bool              `json:"trivial,omitempty"`
+	Agreed  []string          `json:"agreed,omitempty"`
 }
 
 type fnResult struct {
@@ -158,6 +159,9 @@ func (w *world) verifyFunc(con *Contract, fn *ssa.Function, mode string, variant
 			continue
 		}
 		normal++
+		if opts != nil && opts.twins {
+			x.obls = append(x.obls, &obligation{Name: con.Target + "/path-cover", Kind: "path-cover", Pc: o.st.pcStrings(), Goal: "false", Sig: append([]string(nil), o.st.sig...), Decls: len(x.decls)})
+		}
 		renv := func(name string, t types.Type) (val, bool) {
 			for i, r := range con.Results {
 				if r == name {
@@ -172,7 +176,7 @@ func (w *world) verifyFunc(con *Contract, fn *ssa.Function, mode string, variant
 			return penv(name, t)
 		}
 		for _, cl := range con.Ensures {
-			if cl.OnPanic {
+			if cl.OnPanic || (cl.Mode != "" && cl.Mode != mode) {
 				continue
 			}
 			goal := x.evalEnsures(con, cl, x.pre.clone(), cloneOrNil(o.st.snaps["lp"]), cloneOrNil(o.st.snaps["lpend"]), o.st, penv, renv)
@@ -255,6 +259,8 @@ func (x *ctx) frameObligations(st *state, con *Contract, penv envFn, ret val) {
 			}
 		case "ghostall":
 			whole[x.ghostKey(mi.Ghost)] = true
+		case "wholekey":
+			whole[mi.Field] = true
 		case "mapof":
 			f := x.synth(con, mi.ArgFns[0])
 			v := x.evalSpecFn(x.pre, f, nil, x.bindArgs(f, nil, penv))
@@ -355,7 +361,7 @@ func (x *ctx) frameObligations(st *state, con *Contract, penv envFn, ret val) {
 			x.declare(init, srt)
 		}
 		allowed := init
-		if hi := x.hinfo[k]; !hi.indexed && ((strings.HasPrefix(k, "G:") && len(hi.ksorts) == 1 && hi.ksorts[0] == sRef) || !strings.HasPrefix(k, "G:")) {
+		if hi := x.hinfo[k]; (strings.HasPrefix(k, "G:") && len(hi.ksorts) >= 1 && hi.ksorts[0] == sRef) || !strings.HasPrefix(k, "G:") {
 			// objects allocated by this function are not part of the caller's frame
 			for _, a := range x.allocated {
 				allowed = fmt.Sprintf("(store %s %s (select %s %s))", allowed, a.s, cur, a.s)
@@ -403,8 +409,8 @@ func (x *ctx) fieldInvObligations(st *state, con *Contract, penv envFn) {
 // frameExempt: bookkeeping arrays of freshly allocated objects and engine ghosts are not part of the frame.
 func frameExempt(k string) bool {
 	switch {
-	case k == "Len", strings.HasPrefix(k, "E:"), strings.HasPrefix(k, "G:mapP"), strings.HasPrefix(k, "G:mapV"), k == "G:mapN",
-		k == "G:allocd", strings.HasPrefix(k, "G:lp"), strings.HasPrefix(k, "G:clp"), k == "G:chanSent", k == "G:chanCap", k == "G:wgDone", strings.HasPrefix(k, "deref."), strings.HasPrefix(k, "G:arg_"), strings.HasPrefix(k, "G:ret_"), strings.HasPrefix(k, "G:last_"):
+	case k == "Len", k == "G:allocd", strings.HasPrefix(k, "G:lp"), strings.HasPrefix(k, "G:clp"), k == "G:visited",
+		strings.HasPrefix(k, "deref."), strings.HasPrefix(k, "G:arg_"), strings.HasPrefix(k, "G:ret_"), strings.HasPrefix(k, "G:last_"):
 		return true
 	}
 	return false
@@ -476,10 +482,26 @@ func (w *world) discharge(x *ctx, con *Contract, mode, variant string, modelVars
 		go func(o *obligation, r *oblResult, script string) {
 			defer wg.Done()
 			mv := modelVars
-			if o.Kind == "cover" {
+			if o.Kind == "cover" || o.Kind == "path-cover" {
 				mv = nil
 			}
 			sr := solve(script, mv, opts.budgetS, opts.solvers)
+			if opts.allAgree && o.Kind != "cover" && o.Kind != "path-cover" && sr.Status == "unsat" {
+				// thorough tier: every solver that reaches a verdict must agree
+				for _, sp := range solvers {
+					if sp.name == sr.Solver {
+						continue
+					}
+					r2 := solve(script, nil, opts.budgetS, []string{sp.name})
+					if r2.Status == "sat" {
+						sr = solveResult{Status: "unknown", Solver: sr.Solver + "!=" + sp.name, Raw: "solvers disagree: " + sr.Solver + " unsat, " + sp.name + " sat"}
+						break
+					}
+					if r2.Status == "unsat" {
+						r.Agreed = append(r.Agreed, sp.name)
+					}
+				}
+			}
 			if sr.Status != "unsat" && sr.Status != "sat" && o.Kind != "cover" {
 				// one retry with a larger budget on all solvers
 				sr2 := solve(script, mv, opts.budgetS*4, nil)
@@ -489,6 +511,13 @@ func (w *world) discharge(x *ctx, con *Contract, mode, variant string, modelVars
 			}
 			r.Solver, r.Ms = sr.Solver, sr.Ms
 			switch {
+			case o.Kind == "path-cover":
+				switch sr.Status {
+				case "unsat":
+					r.Status = "infeasible-path"
+				default:
+					r.Status = "covered"
+				}
 			case o.Kind == "cover":
 				switch sr.Status {
 				case "sat":
